@@ -236,6 +236,7 @@ func c15Units(tier string) []Unit {
 	// the child came to see it)
 	add("shadowing-cycles", h.Config{}, alpha{scopes: sc, ctors: []*uFunc{pA, pB, rAB, pCb}, invokes: []*uFunc{iA, iB}})
 	add("defer/zero-parameter-functions", h.Config{Defer: true}, alpha{scopes: sc, ctors: []*uFunc{rAB, pB, pA}, invokes: []*uFunc{i0, iA}})
+	add("two-groups-in-one-object", h.Config{}, alpha{scopes: sc, ctors: []*uFunc{pGG, fAgC, fH}, invokes: []*uFunc{iC}})
 	add("same-type-two-names-cycles", h.Config{}, alpha{scopes: sc, ctors: []*uFunc{pA, pBaa, rAnB, pAn}, invokes: []*uFunc{iB}})
 	if !q {
 		add("defer/positional", h.Config{Defer: true}, alpha{scopes: sc, ctors: []*uFunc{pA, pB, pC, rAB}, export: true, decos: []*uFunc{dA}, invokes: []*uFunc{iA, iC}})
